@@ -67,7 +67,7 @@ func judge(run *vlib.Run, st *stats, c *Case, o outcome) {
 		if o.accepted() {
 			cs.Controls++
 		} else if o.rejected() {
-			st.ctrlFail = append(st.ctrlFail, fmt.Sprintf("[%s / %s / %s] %s\n%s\n%s", c.Base, c.sig(), c.Site, o, c.Schema, ""))
+			st.ctrlFail = append(st.ctrlFail, fmt.Sprintf("[%s / %s / %s] %s\n%s", c.Base, c.sig(), c.Site, o, c.Schema))
 		}
 	case c.Expect == "reject":
 		cs.Injected++
@@ -99,7 +99,11 @@ func judge(run *vlib.Run, st *stats, c *Case, o outcome) {
 	case c.Expect == "reject" && o.accepted():
 		run.Report(c.sig()+"|accepted", fmt.Sprintf("schema with a %s error (%s; base schema %q) must be rejected by ReadFile or Generate, but it was %s", c.Class, c.Site, c.Base, o), caseMap(c, o))
 	case c.Expect == "accept" && o.rejected():
-		run.Report(c.sig()+"|rejected-by-"+o.Stage, fmt.Sprintf("schema whose recursion can terminate (%s; %s) must be accepted, but it was %s", c.Class, c.Site, o), caseMap(c, o))
+		why := "valid schema without any recursion"
+		if c.Class == "terminating-recursion" {
+			why = "schema whose recursion can terminate (it passes through a message or a union)"
+		}
+		run.Report(c.sig()+"|rejected-by-"+o.Stage, fmt.Sprintf("%s (%s; %s) must be accepted, but it was %s", why, c.Class, c.Site, o), caseMap(c, o))
 	}
 }
 
@@ -290,8 +294,17 @@ func main() {
 		fams = append(fams, graphFamily{N: 4, KindSets: allKindSets(4), UnionStyles: []int{0}})
 		graphRule += "; n=4: all 65,536 graphs x all 81 kind assignments with struct branches (message-branch style only for n<=3)"
 	} else {
-		fams = append(fams, graphFamily{N: 4, KindSets: [][]int{{gStruct, gStruct, gStruct, gStruct}}, UnionStyles: []int{0}})
-		graphRule += "; n=4 (quick tier): all 65,536 graphs with the all-struct kind assignment only"
+		// representative kind assignments for n=4 in the quick tier: all structs, and exactly one message or union at each position
+		sets := [][]int{{gStruct, gStruct, gStruct, gStruct}}
+		for pos := 0; pos < 4; pos++ {
+			for _, k := range []int{gMessage, gUnion} {
+				ks := []int{gStruct, gStruct, gStruct, gStruct}
+				ks[pos] = k
+				sets = append(sets, ks)
+			}
+		}
+		fams = append(fams, graphFamily{N: 4, KindSets: sets, UnionStyles: []int{0}})
+		graphRule += "; n=4 (quick tier): all 65,536 graphs x 9 representative kind assignments (all structs; exactly one message or one union at each of the 4 positions)"
 	}
 	var graphs, graphReject, graphAccept atomic.Int64
 	graphKinds := vlib.NewCounter()
